@@ -26,20 +26,29 @@ RULE = ('edges: every binary stream of length <= L (quick 6-7 - at length 7 ever
         'Events built from tuples / lists / DataFrame / DataFrame with a stale ts column; bounds int / np.int64 / float; every answer is '
         'overwritten by the caller and the query repeated (aliasing); range_samples, t0, rate(), str checked on every block; combine_events on '
         'lists and tuples, int-vs-float equal rates, rates one ulp apart; off-grid times (k+d)/fs incl. exact ties; negative sample numbers. '
+        'Input without a rate: plain 1-D and (1,n) chunks with fs left at its default "auto" and with fs=None - every clean stream of length <= 5 (thorough 8) x '
+        'debounce 1..3 x both initial states x every chunking (quick, length 5: every second one), boundary sweeps, unclean streams, empty chunks: one block per chunk, tiling, exact events, merging as usual, '
+        'the blocks carry fs None and a NaN ts column; Events without a rate built directly (with and without events): sample-based range / latest queries and '
+        'merging (None with None merges, None with a number is refused), seconds-based get_range / get_latest raise ValueError. '
+        '1-D PipelineData whose channel label is None (the constructor default), "left", 3, ("a", 1) and (1,n) PipelineData with channel None: later chunks '
+        'must concatenate with the carried samples, events as usual. '
         'Non-trivial: at least one event reported or selected. Distinct = distinct case dictionaries.')
 TRUSTED = ['harness/C13.py (generators; conversion of Events objects to integer tuples; brute-force transition oracle)',
            'numpy/pandas primitives used by edges/Events (concatenate, boolean cast, DataFrame filtering and concat) as modelled '
            'in coq/Edges/Model.v and coq/Runs/Model.v (exercised by the correspondence, not proved)']
 ASSUMPTIONS = ['input chunks are 1-D or (1, n); N-dimensional input (ValueError) is not modelled',
-               'annotated chunks share channel and metadata (pipeline.concat raises otherwise); a 1-D PipelineData needs a '
-               'channel label c with c[0] == c (channel=None raises TypeError in edges: outside the property)',
-               'plain input is used with a numeric fs (fs="auto" on plain input gives Events with fs None: outside the property)',
-               'sampling rates are integer-valued in the model (2*fs for the time-based cases); ts = sample / fs is compared exactly by the harness',
+               'annotated chunks share channel and metadata (pipeline.concat raises otherwise); the channel label of a 1-D PipelineData is any '
+               'non-list value (None, str, int, tuple are exercised; a list-valued label on 1-D data is not)',
+               'the rate is an opaque label in the model (theorem C13_rate_irrelevant): the integer 2*fs for a numeric rate, -1 for no rate '
+               '(plain input with fs="auto" / None gives Events with fs None and ts NaN); ts = sample / fs is compared exactly by the harness; '
+               'Events.t0 and Events.rate() are seconds-based and are not observed on Events without a rate',
                'seconds -> samples is int(round(t * fs)) computed by the harness with the same float expression; round((k/fs)*fs) = k is '
                'checked per case (Common/FloatGrid theorem)',
                'the initial state counts as a settled run: a transition at the first sample is a transition of the stream']
 
 KINDS = {'rising': 1, 'falling': 0}
+NOFS = -1                      # the model's label for "no sampling rate" (Events.fs is None)
+CHANS = {None: 'c', 'none': None, 'left': 'left', 'int3': 3, 'tuple': ('a', 1)}   # channel label of a 1-D PipelineData
 DETECT = {'rising': 0, 'falling': 1, 'both': 2, 'none': 3}
 
 
@@ -269,6 +278,92 @@ def cases(tier, rng):
     # --- Events: time-based range queries (get_range / get_latest) at rates where (k / fs) * fs != k occurs
     for c in _time_cases(tier, rng):
         yield c
+    # --- input without a sampling rate; channel labels of 1-D annotated input (added last: the cases above keep their numbering)
+    for c in _norate_label_cases(tier, rng):
+        yield c
+
+
+def _norate_label_cases(tier, rng):
+    quick = tier == 'quick'
+    i = 0
+    nofs = lambda i: {'form': ('plain', 'plain2d')[i % 2], 'nofs': ('auto', 'none')[(i // 2) % 2]}
+    empties = ([[], [0, 1, 1, 1], [], [1, 0, 0, 0]], [[], []], [[1]], [[], [1], [], [1], [1], [0]], [[0], [], [1, 1, 1, 1]])
+    # (1) plain input, fs left at 'auto' or given as None: every clean stream x every chunking
+    for m in (1, 2, 3):
+        for n in range(0, (5 if quick else 8) + 1):
+            for x in itertools.product([0, 1], repeat=n):
+                for init in (0, 1):
+                    if not clean(m, init, x):
+                        continue
+                    for ci, comp in enumerate(compositions(n)):
+                        if quick and n == 5 and (ci + sum(x) + init) % 2:
+                            continue                  # quick: every second chunking of the longest streams
+                        i += 1
+                        yield _edge_case(i, m, init, x, comp, **nofs(i))
+    for m in (2, 3, 4):
+        r = m + 1
+        x = [0] * r + [1] * r + [0] * r + [1] * r
+        for init in (0, 1):
+            for edge in (r, 2 * r):
+                near = [p for p in range(edge - m - 1, edge + m + 2) if 0 < p < len(x)]
+                for k in (0, 1, 2, len(near)):
+                    for cut in itertools.combinations(near, k):
+                        pts = [0] + list(cut) + [len(x)]
+                        i += 1
+                        yield _edge_case(i, m, init, x, [b - a for a, b in zip(pts, pts[1:])], **nofs(i))
+    for chunks in empties:
+        for init in (0, 1):
+            for _ in range(4):
+                i += 1
+                c = _edge_case(i, 1 + (i % 3), init, [], [], **nofs(i))
+                c['chunks'] = chunks
+                yield c
+    for _ in range(150 if quick else 3000):                  # streams not meeting the precondition: model = code
+        n = rng.randint(1, 8)
+        x = [rng.randint(0, 1) for _ in range(n)]
+        i += 1
+        yield _edge_case(i, rng.randint(1, 4), rng.randint(0, 1), x, rng.choice(list(compositions(n))), **nofs(i))
+    # Events without a rate built directly: seconds-based queries refuse, sample-based ones and merging work
+    B = [[[1, 2], [0, 3], [1, 5], [1, 5], [0, 7], [1, 8], [0, 1]], 2, 8, NOFS]
+    q = 0
+    for a in range(B[1], B[2] + 1):
+        for b in range(B[1], B[2] + 1):
+            yield {'k': 'nofs', 'block': B, 'a': a, 'b': b}
+    for Bn in (B, [[[1, -4], [0, -3], [1, -1], [0, 0], [1, 1]], -4, 2, NOFS], [[], 0, 5, NOFS]):
+        for a in range(Bn[1] - 1, Bn[2] + 2):
+            for b in range(Bn[1] - 1, Bn[2] + 2):
+                q += 1
+                yield {'k': 'range', 'block': Bn, 'a': a, 'b': b, 'ctor': CTORS[q % 4], 'bk': BKINDS[(q // 4) % 3]}
+                if b <= a + 1:
+                    yield {'k': 'latest', 'block': Bn, 'lb': a - Bn[2], 'ub': (None if b == Bn[2] else b - Bn[2]),
+                           'ctor': CTORS[(q + 1) % 4], 'bk': BKINDS[(q // 2) % 3]}
+    n1 = [[[1, 3], [0, 5]], 0, 5, NOFS]
+    n2 = [[[0, 6], [1, 9]], 5, 9, NOFS]
+    for bl in ([n1], [n1, n2], [n1, [[], 5, 5, NOFS], n2], [n1, [[[0, 6]], 5, 9, 1000]], [[[[1, 3]], 0, 5, 1000], n2],
+               [n1, [[[0, 6]], 6, 9, NOFS]]):
+        for seq in ('list', 'tuple'):
+            yield {'k': 'combine', 'blocks': bl, 'seq': seq, 'ctor': CTORS[q % 4]}
+    # (2) annotated input: channel labels of 1-D data (None is the constructor default), channel None on (1,n) data
+    for chan, form in (('none', 'pd1d'), ('left', 'pd1d'), ('int3', 'pd1d'), ('tuple', 'pd1d'), ('none', 'pd')):
+        for m in (1, 2):
+            for n in range(0, (4 if quick and form == 'pd1d' else 3 if quick else 7) + 1):
+                for x in itertools.product([0, 1], repeat=n):
+                    for init in (0, 1):
+                        if not clean(m, init, x):
+                            continue
+                        for comp in compositions(n):
+                            i += 1
+                            yield _edge_case(i, m, init, x, comp, form=form, chan=chan)
+        for chunks in empties:
+            i += 1
+            c = _edge_case(i, 1 + (i % 3), i % 2, [], [], form=form, chan=chan)
+            c['chunks'] = chunks
+            yield c
+        for _ in range(25 if quick else 500):
+            n = rng.randint(1, 8)
+            x = [rng.randint(0, 1) for _ in range(n)]
+            i += 1
+            yield _edge_case(i, rng.randint(1, 4), rng.randint(0, 1), x, rng.choice(list(compositions(n))), form=form, chan=chan)
 
 
 def _rand_comp(rng, n, empties):
@@ -302,6 +397,10 @@ def _canon_events(E, fs2=False):
     samples = [int(s) for s in E.events['sample']]
     ts = [float(t) for t in E.events['ts']]
     fs = E.fs
+    if fs is None:                                        # no rate: label NOFS, the ts column must be NaN
+        ok = all(n in KINDS for n in names) and len(ts) == len(samples) and all(t != t for t in ts) and \
+            all(float(s) == int(s) for s in E.events['sample'])
+        return [[[KINDS.get(n, -1), s] for n, s in zip(names, samples)], int(E.start), int(E.end), NOFS], ok
     fkey = fs * 2 if fs2 else fs
     ok = all(n in KINDS for n in names) and len(ts) == len(samples) and \
         all(t == s / fs for s, t in zip(samples, ts)) and float(fkey) == int(fkey) and \
@@ -319,7 +418,7 @@ def _mk_events(B, fs2=False, ctor='tuples', fs=None):
     P = _P()
     inv = {1: 'rising', 0: 'falling'}
     rows = [(inv[k], s) for k, s in B[0]]
-    if fs is None:
+    if fs is None and B[3] != NOFS:                       # B[3] == NOFS: an Events object without a rate
         fs = B[3] / 2.0 if fs2 else float(B[3])
     intact = True
     if ctor == 'lists':
@@ -350,9 +449,9 @@ def _props(E, P):
     why = []
     if E.range_samples != end - start:
         why.append(f'range_samples {E.range_samples} != {end - start}')
-    if E.t0 != start / fs:
+    if fs is not None and E.t0 != start / fs:
         why.append(f't0 {E.t0} != {start / fs}')
-    if end != start and E.rate() != n / (end - start) * fs:
+    if fs is not None and end != start and E.rate() != n / (end - start) * fs:
         why.append(f'rate {E.rate()} != {n / (end - start) * fs}')
     if f'n={n} between {start} and {end}' not in str(E) or str(E) not in repr(E):
         why.append(f'str {str(E)!r}')
@@ -500,16 +599,23 @@ def impl(case):
         except ValueError:
             return {'raised_value_error': True, 'n': len(got)}
     if case['k'] == 'nofs':
-        E = P.Events([], 0, 5, None)
+        B = case.get('block') or [[], 0, 5, NOFS]
+        inv = {1: 'rising', 0: 'falling'}
+        E = P.Events([(inv[k], s) for k, s in B[0]], B[1], B[2], None)
         out = {}
-        for name, call in (('get_range', lambda: E.get_range(0.0, 0.001)), ('get_latest', lambda: E.get_latest(-0.001))):
+        for name, call in (('get_range', lambda: E.get_range(0.0, 0.001)), ('get_latest', lambda: E.get_latest(-0.001)),
+                           ('get_range_0', lambda: E.get_range(0.0, 0.0)), ('get_latest_0', lambda: E.get_latest(0.0))):
             try:
                 call()
                 out[name] = 'returned'
             except ValueError:
                 out[name] = 'ValueError'
-        R = E.get_range_samples(1, 3)
+        a, b = (1, 3) if 'block' not in case else (case['a'], case['b'])
+        R = E.get_range_samples(a, b)
         out['samples'] = [len(R.events), R.start, R.end, R.fs]
+        out['block'], out['ts_ok'] = _canon_events(R)
+        out['whole'], ok = _canon_events(E)
+        out['ts_ok'] = out['ts_ok'] and ok
         return out
     if case['k'] == 'edges':
         got = []
@@ -517,6 +623,9 @@ def impl(case):
         kw = {'initial_state': _init_value(case), 'detect': case['detect']}
         if pd:
             kw['fs'] = 'auto' if case['m'] % 2 else 7.0      # ignored for annotated input
+        elif case.get('nofs'):
+            if case['nofs'] == 'none':                        # 'auto': the argument is left at its default
+                kw['fs'] = None
         else:
             fsk = case.get('fsk', 'float')
             fs = case['fs']
@@ -553,8 +662,15 @@ def impl(case):
                 x = a[np.newaxis, :] if two_d else a
                 if ann is not None:
                     s0 = ann[0] if case.get('s0k', 'int') == 'int' else np.int64(ann[0])
-                    x = P.PipelineData(x, fs=real_fs, s0=s0, channel=(['ch'] if two_d else 'c'),
-                                       metadata={'tag': 1})
+                    label = CHANS[case.get('chan')]
+                    if two_d:
+                        channel = ['ch'] if case.get('chan') is None else (None if label is None else [label])
+                    else:
+                        channel = label
+                    if channel is None:
+                        x = P.PipelineData(x, fs=real_fs, s0=s0, metadata={'tag': 1})     # the constructor's default
+                    else:
+                        x = P.PipelineData(x, fs=real_fs, s0=s0, channel=channel, metadata={'tag': 1})
                 co.send(x)
                 if not np.array_equal(a, keep, equal_nan=(a.dtype.kind == 'f')):
                     res['input_intact'] = False
@@ -644,7 +760,7 @@ def impl(case):
             E, ok = _mk_events(B, ctor=case.get('ctor', 'tuples'), fs=fs)
             bl.append(E)
             intact = intact and ok
-        origs = [_canon_events(E)[0] if float(E.fs) == int(E.fs) else None for E in bl]
+        origs = [_canon_events(E)[0] if (E.fs is None or float(E.fs) == int(E.fs)) else None for E in bl]
         seq = tuple(bl) if case.get('seq') == 'tuple' else bl
         out = {'alias_ok': intact, 'alias_why': None if intact else 'the constructor changed the data it was given',
                'props_ok': True}
@@ -662,7 +778,7 @@ def impl(case):
         out.update(code=0, block=b, ts_ok=ok)
         _scribble(R)
         b2, _ = _canon_events(P.combine_events(seq))
-        now = [_canon_events(E)[0] for E in bl]
+        now = [_canon_events(E)[0] if (E.fs is None or float(E.fs) == int(E.fs)) else None for E in bl]
         if b2 != b or now != origs or any(R is E for E in bl):
             out.update(alias_ok=False, alias_why=f'after the caller changed the merged block: inputs {now} (were {origs}), '
                                                  f'merging again gives {b2} (was {b})')
@@ -682,11 +798,13 @@ def _annlit(a):
 
 
 def term(case, res):
+    if case['k'] == 'nofs' and 'block' in case:
+        return f"check_range {_blocklit(case['block'])} {zlit(case['a'])} {zlit(case['b'])} (Some {_blocklit(res['block'])})"
     if case['k'] in ('ndim', 'nofs'):
         return 'true'                                     # judged by the oracle only (not modelled)
     if case['k'] == 'edges':
         chunks = listlit([f'({_annlit(a)}, {blist(b)})' for a, b, _ in _chunks_for_model(case)])
-        fs_arg = fskey(case['fs']) if not case['form'].startswith('pd') else 0
+        fs_arg = (NOFS if case.get('nofs') else fskey(case['fs'])) if not case['form'].startswith('pd') else 0
         t = (f"check_edges {DETECT[case['detect']]} {zlit(case['m'])} {blit(case['init'])} {zlit(fs_arg)} {chunks} "
              f"{listlit([_blocklit(b) for b in res['blocks']])} {blit(res['ok'])}")
         if res['combined'] is not None:
@@ -729,8 +847,15 @@ def oracle(case, res):
         ok = res['raised_value_error'] and res['n'] == 0
         return None if ok else f'edges accepted {case["shape"]}-shaped input: {res}'
     if case['k'] == 'nofs':
-        if res['get_range'] != 'ValueError' or res['get_latest'] != 'ValueError' or res['samples'] != [0, 1, 3, None]:
+        B = case.get('block') or [[], 0, 5, NOFS]
+        a, b = (1, 3) if 'block' not in case else (case['a'], case['b'])
+        want = [e for e in B[0] if a <= e[1] < b]
+        if any(res[q] != 'ValueError' for q in ('get_range', 'get_latest', 'get_range_0', 'get_latest_0')) or \
+                res['samples'] != [len(want), a, b, None] or res['block'] != [want, a, b, NOFS] or \
+                res['whole'] != [B[0], B[1], B[2], NOFS]:
             return f'Events without a rate: seconds-based queries must raise ValueError, sample-based ones work: {res}'
+        if not res['ts_ok']:
+            return 'Events without a rate: the ts column must be NaN'
         return None
     if not res.get('ts_ok', True):
         return 'an Events object has a wrong ts column (ts != sample / fs), unknown event names or non-integer fields'
@@ -757,8 +882,9 @@ def oracle(case, res):
         for b, c in zip(blocks, chunks):
             if b[1] != pos or b[2] != pos + len(c):
                 return f'blocks do not tile: block {b[1:3]}, expected {[pos, pos + len(c)]}'
-            if b[3] != fskey(case['fs']):
-                return f'block has 2*fs = {b[3]}, expected {fskey(case["fs"])}'
+            want_fs = NOFS if (case.get('nofs') and not case['form'].startswith('pd')) else fskey(case['fs'])
+            if b[3] != want_fs:
+                return f'block has 2*fs = {b[3]}, expected {want_fs} ({NOFS} stands for fs None)'
             pos += len(c)
         if blocks and res['combined'] is not None:
             cb = res['combined']
@@ -865,7 +991,7 @@ def distribution(cases, results):
             e.setdefault('detect', {})
             e['detect'][c['detect']] = e['detect'].get(c['detect'], 0) + 1
             e['errors'] = e.get('errors', 0) + int(not r['ok'])
-            for fld in ('dtype', 'mk', 'fsk', 'tgt', 'buf', 's0k', 'fs', 'first'):
+            for fld in ('dtype', 'mk', 'fsk', 'tgt', 'buf', 's0k', 'fs', 'first', 'nofs', 'chan'):
                 dd = e.setdefault(fld, {})
                 key = str(c.get(fld))
                 dd[key] = dd.get(key, 0) + 1
